@@ -93,6 +93,15 @@ func (s *Stats) NoteOutcome(o *Outcome) {
 		}
 	}
 	s.logSet[o.Hash] = struct{}{}
+	if o.GatedOps > 0 {
+		s.Probes["reads_gated_execution"]++
+	}
+	if o.GatedChoices > 0 {
+		s.Probes["reads_gated_with_real_choice"]++
+	}
+	if o.GoroutineLeak {
+		s.Probes["goroutine_leak_after_return"]++
+	}
 	if s.wantHashes {
 		h := fnv.New64a()
 		fmt.Fprintf(h, "%d|%d|%s|%s|%s|%s|%v|%v|%d\n", s.caseHash, o.Hash, o.ErrClass(), o.ErrText, o.Result.Render(), o.Stdout, o.Records, o.BatchPerms, o.SimNs)
